@@ -210,6 +210,18 @@ def unit_fn_names(text):
     return sorted(set(q for (s, e, q) in fn_index(text) if s > marker_line))
 
 
+def unit_loop_counts(text):
+    """{qualified fn name: number of loops in its text} for the unit part of a generated file"""
+    marker_line = text[: text.find("// ===== unit text")].count("\n")
+    masked = extract.mask_trivia(text).split("\n")
+    out = {}
+    for (s, e, q) in fn_index(text):
+        if s > marker_line:
+            seg = "\n".join(masked[s - 1:e])
+            out[q] = out.get(q, 0) + len(re.findall(r"\b(while|for|loop)\b", seg))
+    return out
+
+
 def reclassify_unknown_callees(res, text, tag):
     """A function that the contracts have never seen (e.g. a helper a refactoring extracted) has no
     contract, so its callers cannot be proved whatever it does: a failure in a function that calls
@@ -217,6 +229,19 @@ def reclassify_unknown_callees(res, text, tag):
     inv = inventory().get(tag)
     if inv is None:
         return
+    if isinstance(inv, dict):
+        loops0 = inv.get("loops", {})
+        inv = inv.get("functions", [])
+        # loop contracts are attached by ordinal: when a function's number of loops differs from what
+        # the contracts were written for they may sit on the wrong loop — a failure there is no verdict
+        now = unit_loop_counts(text)
+        changed = [q for q, n_ in now.items() if q in loops0 and loops0[q] != n_]
+        moved_ = [f for f in res["failures"] if f["function"] in changed]
+        if moved_:
+            res["failures"] = [f for f in res["failures"] if f not in moved_]
+            res.setdefault("needs_contract", []).extend(
+                "%s (%s; its loop structure changed: %d loops, the loop contracts were written for %d)" % (
+                    f["function"], f["kind"], now[f["function"]], loops0[f["function"]]) for f in moved_)
     unknown = [q for q in unit_fn_names(text) if q not in inv]
     if not unknown:
         return
@@ -392,9 +417,9 @@ if __name__ == "__main__":
             for v in extract.variants_of(open(f).read()):
                 tag = name + ("" if not v else "." + "_".join(list(v.values())[:2]))
                 text, _ = extract.generate(f, v, canary=False)
-                inv[tag] = unit_fn_names(text)
+                inv[tag] = dict(functions=unit_fn_names(text), loops=unit_loop_counts(text))
         json.dump(inv, open(INVENTORY_PATH, "w"), indent=0, sort_keys=True)
-        print("inventory written:", len(inv), "unit-variants,", sum(len(x) for x in inv.values()), "functions")
+        print("inventory written:", len(inv), "unit-variants,", sum(len(x["functions"]) for x in inv.values()), "functions")
         sys.exit(0)
     rs = run_units([(os.path.basename(a)[:-3], os.path.relpath(os.path.abspath(a), VERIF)) for a in sys.argv[1:]])
     for r in rs:
